@@ -320,6 +320,12 @@ class Body:
             v = op_const_int(o)
             if v is None and "str" in o:
                 v = o["str"]
+            elif v is None and o.get("ty") == "&str" and str(o.get("k", "")).startswith('"'):
+                try:
+                    import ast as _ast
+                    v = _ast.literal_eval(o["k"])
+                except Exception:
+                    v = None
             return ("const", v, o.get("ty"), o["k"])
         p = op_place(o)
         return self.expr_place(p, depth, _seen)
